@@ -18,6 +18,9 @@ Pat3 == {<<0, 1, 2>>, <<0, 0, 1, 2>>, <<2, 0, 1, 1>>, <<0, 0, 1, 1, 2>>}
 Pat4 == {<<0, 1, 2, 3>>, <<0, 1, 2>>, <<1, 2, 3>>, <<0, 1, 3>>, <<0, 0, 1, 2, 3>>, <<0, 1, 1, 2, 3, 3>>,
          <<3, 1, 0, 2>>, <<0, 0, 1, 2>>, <<2, 1, 3, 3>>}
 Pat4Few == {<<0, 1, 2, 3>>, <<1, 2, 3>>, <<0, 0, 1, 2, 3>>, <<2, 1, 3, 3>>}
+FitKindsA == {<<"fit_regress_nn", "corr">>, <<"fit_regress_nn", "corr_cov">>, <<"fit_regress", "corr">>, <<"fit_regress", "cosine">>,
+              <<"fit_regress_nn", "cosine">>, <<"fit_regress", "cosine_cov">>, <<"fit_select", "cosine">>, <<"fit_interpolate", "corr">>}
+NoKinds == {}
 R1 == {1}
 R12 == {1, 2}
 R2 == {2}
